@@ -3,7 +3,6 @@
 package rpc
 
 import (
-	"context"
 	"errors"
 
 	"github.com/gotd/td/internal/verifrt"
@@ -37,13 +36,13 @@ func VerifC26_close() {
 				}
 			}
 			wantDrops := 0
-			if err == context.Canceled && h.sendOK[k] > 0 {
+			if h.cancelErr[k] != nil && err == h.cancelErr[k] && h.sendOK[k] > 0 {
 				wantDrops = 1
 				verifrt.Reach("C26.close.dropped")
 			}
 			verifrt.Assert(h.drops[k] == wantDrops, "C26.close.dropcount")
 			if k == 0 && h.canceled[0] && !h.answered[0] && !h.closedByScenario {
-				verifrt.Assert(err == context.Canceled, "C26.close.cancelerror")
+				verifrt.Assert(err == h.cancelErr[0], "C26.close.cancelerror")
 			}
 		}
 		verifrt.Reach("C26.close.end")
